@@ -313,7 +313,7 @@ func runHarnesses(rep *explore.Report, tier string, only string, bound int) {
 		h := h
 		outcomes := map[string]int{}
 		hb := bound
-		if len(h.Threads) >= 4 && hb > 2 {
+		if len(h.Threads)+len(h.Other) >= 4 && hb > 2 {
 			hb = 2 // four threads with statement-level points: 3 preemptions would take hours; 2 are completed
 			rep.Set("preemption_bound_four_thread_harnesses", int64(hb))
 		}
